@@ -7,7 +7,7 @@ use proptest::prelude::*;
 use serde::{Deserialize, Serialize};
 
 use crate::engine::{Ctx, Outcome, Property, Tier};
-use crate::peers::{connect_proxy_then_tls, https_proxy, https_proxy_then_tls, tls_server};
+use crate::peers::{connect_proxy_then_tls, connect_refusing_proxy, https_proxy, https_proxy_then_tls, tls_server};
 
 /// (fixture, chains to the fixture root, expired, name matches `localhost`, name matches `127.0.0.1`)
 pub const CERTS: &[(&str, bool, bool, bool, bool)] = &[
@@ -28,6 +28,9 @@ pub const CERTS: &[(&str, bool, bool, bool, bool)] = &[
     ("impostor", true, false, true, true),
     // chains to the fixture root but carries no subjectAltName at all (subject CN=other.test): valid for no name
     ("nosan", true, false, false, false),
+    // the peer's own (self-signed, other names) certificate first, the `good` certificate - whose key the peer does not hold -
+    // appended behind it: the certificate the peer proves possession of is the first one, and that one is not acceptable
+    ("appended", false, false, false, false),
 ];
 
 #[derive(Debug, Clone, Serialize, Deserialize, PartialEq, Eq, Hash)]
@@ -61,6 +64,10 @@ pub struct Case {
     /// a certificate made at run time whose validity period starts two minutes from now
     #[serde(default)]
     pub not_yet_valid: bool,
+    /// when > 0: the proxy refuses CONNECT (1: 405, 2: 501, 3: 403) and would answer a plain request on a second connection: no
+    /// https exchange can succeed without a TLS session, whatever the flags
+    #[serde(default)]
+    pub refusing_proxy: u8,
 }
 
 pub struct C14;
@@ -104,9 +111,9 @@ pub fn all_cases() -> Vec<Case> {
                     for route in 0..3u8 {
                         for place in 0..5u8 {
                             for host_form in 0..2u8 {
-                                v.push(Case { cert, invalid_certs, invalid_hostnames, add_root, route, place, host_form, pin_leaf: false, withdraw: 0, prior: 0, expiring: false, not_yet_valid: false });
+                                v.push(Case { cert, invalid_certs, invalid_hostnames, add_root, route, place, host_form, pin_leaf: false, withdraw: 0, prior: 0, expiring: false, not_yet_valid: false, refusing_proxy: 0 });
                                 if add_root {
-                                    v.push(Case { cert, invalid_certs, invalid_hostnames, add_root, route, place, host_form, pin_leaf: true, withdraw: 0, prior: 0, expiring: false, not_yet_valid: false });
+                                    v.push(Case { cert, invalid_certs, invalid_hostnames, add_root, route, place, host_form, pin_leaf: true, withdraw: 0, prior: 0, expiring: false, not_yet_valid: false, refusing_proxy: 0 });
                                 }
                             }
                         }
@@ -122,7 +129,7 @@ pub fn all_cases() -> Vec<Case> {
                 for add_root in [false, true] {
                     for place in 0..5u8 {
                         for host_form in 0..2u8 {
-                            v.push(Case { cert, invalid_certs, invalid_hostnames, add_root, route: 3, place, host_form, pin_leaf: false, withdraw: 0, prior: 0, expiring: false, not_yet_valid: false });
+                            v.push(Case { cert, invalid_certs, invalid_hostnames, add_root, route: 3, place, host_form, pin_leaf: false, withdraw: 0, prior: 0, expiring: false, not_yet_valid: false, refusing_proxy: 0 });
                         }
                     }
                 }
@@ -135,7 +142,7 @@ pub fn all_cases() -> Vec<Case> {
             for add_root in [false, true] {
                 for place in 0..2u8 {
                     for host_form in 0..2u8 {
-                        v.push(Case { cert, invalid_certs, invalid_hostnames, add_root, route: 0, place, host_form, pin_leaf: false, withdraw, prior: 0, expiring: false, not_yet_valid: false });
+                        v.push(Case { cert, invalid_certs, invalid_hostnames, add_root, route: 0, place, host_form, pin_leaf: false, withdraw, prior: 0, expiring: false, not_yet_valid: false, refusing_proxy: 0 });
                     }
                 }
             }
@@ -147,15 +154,21 @@ pub fn all_cases() -> Vec<Case> {
             for route in [0u8, 1] {
                 for prior in [1u8, 2] {
                     for host_form in 0..2u8 {
-                        v.push(Case { cert, invalid_certs: false, invalid_hostnames: false, add_root, route, place: 0, host_form, pin_leaf: false, withdraw: 0, prior, expiring: false, not_yet_valid: false });
+                        v.push(Case { cert, invalid_certs: false, invalid_hostnames: false, add_root, route, place: 0, host_form, pin_leaf: false, withdraw: 0, prior, expiring: false, not_yet_valid: false, refusing_proxy: 0 });
                     }
                 }
             }
         }
     }
     // validity is judged at the time of each exchange
-    v.push(Case { cert: 0, invalid_certs: false, invalid_hostnames: false, add_root: true, route: 0, place: 0, host_form: 0, pin_leaf: false, withdraw: 0, prior: 0, expiring: true, not_yet_valid: false });
-    v.push(Case { cert: 0, invalid_certs: false, invalid_hostnames: false, add_root: true, route: 0, place: 0, host_form: 0, pin_leaf: false, withdraw: 0, prior: 0, expiring: false, not_yet_valid: true });
+    v.push(Case { cert: 0, invalid_certs: false, invalid_hostnames: false, add_root: true, route: 0, place: 0, host_form: 0, pin_leaf: false, withdraw: 0, prior: 0, expiring: true, not_yet_valid: false, refusing_proxy: 0 });
+    v.push(Case { cert: 0, invalid_certs: false, invalid_hostnames: false, add_root: true, route: 0, place: 0, host_form: 0, pin_leaf: false, withdraw: 0, prior: 0, expiring: false, not_yet_valid: true, refusing_proxy: 0 });
+    // a proxy that refuses the tunnel: with and without waivers
+    for refusing_proxy in 1..=3u8 {
+        for danger in [false, true] {
+            v.push(Case { cert: 0, invalid_certs: danger, invalid_hostnames: danger, add_root: true, route: 1, place: 0, host_form: 0, pin_leaf: false, withdraw: 0, prior: 0, expiring: false, not_yet_valid: false, refusing_proxy });
+        }
+    }
     v
 }
 
@@ -301,12 +314,36 @@ fn check_not_yet_valid(ctx: &mut Ctx) -> Outcome {
     }
 }
 
+/// See Case::refusing_proxy.
+fn check_refusing_proxy(case: &Case, ctx: &mut Ctx) -> Outcome {
+    ctx.nontrivial = true;
+    ctx.label("proxy-refuses-the-tunnel");
+    let status = [405u16, 501, 403][(case.refusing_proxy as usize - 1) % 3];
+    let mut peer = connect_refusing_proxy(status);
+    let port = peer.port();
+    let mut session = attohttpc::Session::new();
+    session.proxy_settings(attohttpc::ProxySettings::builder().https_proxy(url::Url::parse(&format!("http://127.0.0.1:{port}")).unwrap()).build());
+    session.connect_timeout(std::time::Duration::from_secs(5));
+    session.read_timeout(std::time::Duration::from_secs(5));
+    apply_session(&mut session, case);
+    let r = session.get("https://localhost:4443/x").header("Authorization", "Bearer MSECRET").send().and_then(|r| r.text_utf8());
+    peer.join();
+    let seen = peer.seen.lock().unwrap().clone();
+    if let Some(p) = &seen.plaintext_retry {
+        return Outcome::fail(format!("C14:{}:fell-back-to-plaintext", backend()), format!("[{}] the proxy answered CONNECT with {status}; the client connected again and sent the https request in plain text ({p:?})", backend()));
+    }
+    match r {
+        Err(_) => Outcome::Pass,
+        Ok(body) => Outcome::fail(format!("C14:{}:response-without-tls", backend()), format!("[{}] the proxy answered CONNECT with {status}, no TLS session ever existed, yet the https request returned a response ({body:?})", backend())),
+    }
+}
+
 impl Property for C14 {
     type Case = Case;
     const ID: &'static str = "C14";
-    const RULE: &'static str = "configuration matrix {chains to the added root, wrong name, self-signed, unknown issuer, expired, each with matching / differing name, valid for only one of the two names of the peer, self-signed CA:TRUE, the good chain served without its key, a chain to the root without any subjectAltName} x accept_invalid_certs x accept_invalid_hostnames x root added {no, the CA, the presented certificate itself} x \
+    const RULE: &'static str = "configuration matrix {chains to the added root, wrong name, self-signed, unknown issuer, expired, each with matching / differing name, valid for only one of the two names of the peer, self-signed CA:TRUE, the good chain served without its key, a chain to the root without any subjectAltName, an unacceptable certificate with the good one appended behind it} x accept_invalid_certs x accept_invalid_hostnames x root added {no, the CA, the presented certificate itself} x \
 route {direct https, inside a CONNECT tunnel through a plain proxy, https proxy presenting the certificate for an http origin and for a tunnelled https origin} x where the flags/root were set {session, this request, sibling request created before / after, session after the request was created} x \
-contacted host {localhost, 127.0.0.1}: 6451 cells per TLS backend (the product of 13 certificates, 192 cells in which a sibling request with a waiver is sent first, one cell with a certificate made at run time that expires between two exchanges, one with a certificate whose validity starts two minutes from now, 800 for an https proxy that carries a CONNECT tunnel, 400 with a waiver given and then withdrawn on the request), each a real TLS handshake against a rustls server on a loopback socket; both tiers run all cells of both backends. Oracle = the truth table, both directions. \
+contacted host {localhost, 127.0.0.1}: 6953 cells per TLS backend (the product of 14 certificates, 192 cells in which a sibling request with a waiver is sent first, one cell with a certificate made at run time that expires between two exchanges, one with a certificate whose validity starts two minutes from now, six with a proxy that refuses the tunnel and would answer a plain request, 800 for an https proxy that carries a CONNECT tunnel, 400 with a waiver given and then withdrawn on the request), each a real TLS handshake against a rustls server on a loopback socket; both tiers run all cells of both backends. Oracle = the truth table, both directions. \
 non-trivial = at least one danger flag, an added root or a non-valid certificate; distinct by cell";
 
     fn assumptions() -> Vec<String> {
@@ -359,13 +396,16 @@ non-trivial = at least one danger flag, an added root or a non-valid certificate
 
     fn strategy(_tier: Tier) -> BoxedStrategy<Case> {
         (0u8..CERTS.len() as u8, any::<bool>(), any::<bool>(), any::<bool>(), 0u8..3, 0u8..5, 0u8..2)
-            .prop_map(|(cert, invalid_certs, invalid_hostnames, add_root, route, place, host_form)| Case { cert, invalid_certs, invalid_hostnames, add_root, route, place, host_form, pin_leaf: false, withdraw: 0, prior: 0, expiring: false, not_yet_valid: false })
+            .prop_map(|(cert, invalid_certs, invalid_hostnames, add_root, route, place, host_form)| Case { cert, invalid_certs, invalid_hostnames, add_root, route, place, host_form, pin_leaf: false, withdraw: 0, prior: 0, expiring: false, not_yet_valid: false, refusing_proxy: 0 })
             .boxed()
     }
 
     fn check(case: &Case, ctx: &mut Ctx) -> Outcome {
         if case.not_yet_valid {
             return check_not_yet_valid(ctx);
+        }
+        if case.refusing_proxy != 0 {
+            return check_refusing_proxy(case, ctx);
         }
         if case.expiring {
             return check_expiring(ctx);
